@@ -186,10 +186,10 @@ func c15Specs(quick bool) []*SeqSpec {
 	for _, i := range []int{0, 3, 4, 7, 9, 11, 13, 15} {
 		d := vs[i]
 		a = append(a,
-			op(1, withData(L(0, 1, 2, 0, 9, 1, 0), d)),                             // second LockId
-			op(0, withData(hapi.Cmd{Type: 2, Key: 1, Id: 1, Rcount: 1}, d)),        // unlock one level
+			op(1, withData(L(0, 1, 2, 0, 9, 1, 0), d)),                                                        // second LockId
+			op(0, withData(hapi.Cmd{Type: 2, Key: 1, Id: 1, Rcount: 1}, d)),                                   // unlock one level
 			op(0, withData(hapi.Cmd{Type: 1, Key: 1, Id: 1, Flag: 0x02, Expried: 9, Count: 1, Rcount: 3}, d)), // update
-			op(1, withData(L(0, 1, 3, 0, 9, 0, 0), d)),                             // refused (Count 0) while held
+			op(1, withData(L(0, 1, 3, 0, 9, 0, 0), d)),                                                        // refused (Count 0) while held
 		)
 	}
 	a = append(a, op(1, U(0, 1, 2)), op(0, U(0, 1, 1)), op(1, withData(L(0, 1, 4, 5, 9, 0, 0), vs[7])), tick(2*sec))
